@@ -665,6 +665,10 @@ func (u *URI) RequestURI() []byte {
 	var dst []byte
 	if u.DisablePathNormalizing {
 		dst = append(u.requestURI[:0], u.PathOriginal()...)
+		if len(dst) == 0 {
+			// "http://host?q" has an empty path; the request target must still start with a slash
+			dst = append(dst, '/')
+		}
 	} else {
 		dst = bytesconv.AppendQuotedPath(u.requestURI[:0], u.Path())
 	}
